@@ -34,6 +34,7 @@ class Contract(object):
     self.no_other_exceptions = True
     self.cover_ = []
     self.hooks = {}
+    self.function_of_ = None   # result is a deterministic function of these pre-state expressions
 
   # fluent API used by contract files
   def param(self, name, kind):
@@ -84,6 +85,10 @@ class Contract(object):
   def trusted(self, reason):
     self.verify = False
     self.trusted_reason = reason
+    return self
+
+  def function_of(self, *exprs):
+    self.function_of_ = list(exprs)
     return self
 
   def cover(self, name, expr):
@@ -163,7 +168,12 @@ class Registry(object):
   def ctor_contract(self, cls):
     return None
 
+  PSEUDO = ('regex', 'logger', 'lock', 'rlock', 'event', 'thread', 'object', 'file', 'match', 'condition', 'queue',
+            'transport', 'usb', 'CONF', 'tempfile', 'timeout')
+
   def class_named(self, name):
+    if name in self.PSEUDO:
+      return name
     for m in list(self.repo.modules.values()):
       if name in m.classes:
         return m.classes[name]
